@@ -543,6 +543,11 @@ Definition perm_of (mode : option N) : N :=
   | None => 33188     (* 0o100644 *)
   end.
 
+(* GErr / BErr / XErr are errors of the CLASS DecompressionFailure: get_object maps every failure of by_name, of the
+   compression-method test and of the zstd/CRC read to that marker type, and get_cached_or_compile treats exactly
+   that class (downcast_ref::<DecompressionFailure>()) as "miss, recompile"; any other error type fails the request.
+   The model has no other error class on these paths, so a real reader that reports a corrupt member with a different
+   error type disagrees with the model (the harness observes the class). *)
 Inductive gres : Type := GOk (mode : option N) (content : list N) | GErr | GPanic.
 Inductive bres : Type := BOk (content : list N) | BErr | BPanic.
 Inductive xres : Type := XOk (files : list (option (option N * list N))) | XErr | XPanic.
@@ -558,6 +563,8 @@ Section Glue.
   Definition put_object (w : list member) (name content : list N) (mode : option N) : list member :=
     w ++ [mkMember name (perm_of mode) (compress content)].
 
+  (* put_stdout / put_stderr: the output is skipped if and only if it is the EMPTY byte string (`!bytes.is_empty()`);
+     "\n", " ", a NUL byte ... are stored like any other output, because a missing member reads back as empty *)
   Definition put_bytes (w : list member) (name bytes : list N) : list member :=
     match bytes with
     | [] => w
